@@ -116,7 +116,10 @@ fn run_case(data: &[u8], pattern: &[usize], ops: &[Op]) -> Result<(), String> {
             Ok(a) => a,
             Err(_) => return Err(format!("ReadAdapter panicked at step {step} ({op:?})")),
         };
-        let s = apply(&mut slice, op);
+        let s = match catch_unwind(AssertUnwindSafe(|| apply(&mut slice, op))) {
+            Ok(s) => s,
+            Err(_) => return Err(format!("SliceReader panicked at step {step} ({op:?}); ReadAdapter returned {a:?}")),
+        };
         let ok = match op {
             // look-ahead may be optimistic, never pessimistic
             Op::CheckEor(_) | Op::HasMore => a == s || (!eof_seen && a == Out::Flag(true) && s == Out::Flag(false)),
@@ -213,4 +216,45 @@ fn read_adapter_equivalence_bounded() {
         cases += 1;
     }
     println!("NB-RESULT name=read_adapter_equivalence_bounded cases={cases}");
+}
+
+// Lengths and counts that no stream can satisfy (they usually come from the input itself): both readers must
+// refuse them in the same way - no panic, no allocation driven by the count -, whatever was consumed before, and stay in
+// step afterwards.
+#[test]
+fn read_adapter_hostile_lengths_bounded() {
+    let before = [Op::HasMore, Op::U8, Op::Peek, Op::U16, Op::Slice(3), Op::Usize, Op::CheckEor(1), Op::Vec(2)];
+    let after = [Op::U8, Op::HasMore, Op::CheckEor(1), Op::Slice(2), Op::ManyU16(1), Op::U64];
+    let mut hostile = Vec::new();
+    for n in [
+        usize::MAX, usize::MAX - 1, usize::MAX - 2, usize::MAX - 3, usize::MAX - 7, usize::MAX - 12, usize::MAX - 300,
+        usize::MAX / 2, usize::MAX / 2 + 1, usize::MAX / 4, usize::MAX / 8 + 1, usize::MAX / 16, 1 << 62, 1 << 40,
+        1 << 32, (1 << 32) - 1, 1 << 20, 4097, 4096, 2049, 2048,
+    ] {
+        hostile.extend([Op::Slice(n), Op::Vec(n), Op::Str(n), Op::ManyU16(n), Op::CheckEor(n)]);
+    }
+    let patterns: [&[usize]; 6] = [&[1], &[3, 1], &[255], &[256], &[257], &[4096]];
+    let mut cases = 0u64;
+    for len in [0usize, 1, 2, 3, 4, 5, 8, 9, 12, 13, 255, 256, 257, 300, 700] {
+        let data = stream(len, seed() + 77 + len as u64);
+        for pat in patterns {
+            for &b in &before {
+                for &h in &hostile {
+                    for &a in &after {
+                        let ops = [b, h, a];
+                        if let Err(m) = run_case(&data, pat, &ops) {
+                            report(&data, pat, &ops, m);
+                        }
+                        // the same with a second element consumed first (positions > 1)
+                        let ops = [b, b, h, a];
+                        if let Err(m) = run_case(&data, pat, &ops) {
+                            report(&data, pat, &ops, m);
+                        }
+                        cases += 2;
+                    }
+                }
+            }
+        }
+    }
+    println!("NB-RESULT name=read_adapter_hostile_lengths_bounded cases={cases}");
 }
